@@ -1,8 +1,16 @@
-From Coq Require Import ZArith Extraction ExtrOcamlBasic.
-From Verif Require Import Lib.Sx Model.Faults Model.FaultsRound Proofs.GenTable Proofs.GenFaults Gen.Dispatch Gen.Faultsites.
+From Coq Require Import ZArith List Extraction ExtrOcamlBasic.
+From Verif Require Import Lib.Sx Model.Faults Model.FaultsCheck Model.FaultsRound Proofs.GenTable Proofs.GenFaults Gen.Dispatch Gen.Faultsites.
+Import ListNotations.
 (* the executable model is instantiated with the facts regenerated from the source on this run;
-   fn 2 = one wake-up of the dispatcher (Model/FaultsRound.v) *)
+   fn 2 = one wake-up of the dispatcher (Model/FaultsRound.v);
+   fn 3 = is this instantiation a model of the source at all: the closed checks of Props/C13.v that say the
+          hand-written bodies stand for the code (when one is false the harness switches the model off and judges
+          the implementation by the property oracle alone) *)
 Definition run_main (fn : Z) (a : sx) : sx :=
   if (fn =? 2)%Z then run_round gen_react dispatcher_try_per_task a
+  else if (fn =? 3)%Z then
+    L (map sx_of_bool
+           [ translator_ok; faultsites_ok; sites_ok; workers_ok; conds_ok;
+             params_ok pathcond_defs gen_react gen_wrapped gen_cstor gen_cretr gen_clist gen_cmlsd ])
   else run_faults gen_table pathcond_defs gen_react gen_wrapped gen_cstor gen_cretr gen_clist gen_cmlsd fn a.
 Extraction "../build/ml/c13.ml" run_main.
